@@ -197,7 +197,7 @@ impl Zone {
     /// algorithm (see section 4.3.2 of RFC 1034).
     pub fn resolve(&self, name: &DomainName, qtype: QueryType) -> Option<ZoneResult> {
         self.relative_domain(name)
-            .map(|relative| self.records.resolve(name, qtype, relative))
+            .map(|relative| self.records.resolve(name, qtype, relative, true))
     }
 
     /// Insert a record for a domain.  This domain MUST be a subdomain
@@ -333,22 +333,25 @@ impl ZoneRecords {
         }
     }
 
-    /// Resolve a query
+    /// Resolve a query.  `is_apex` says whether these are the records of the
+    /// zone's apex: `NS` records there name the zone's own nameservers, they
+    /// do not delegate the zone away.
     pub fn resolve(
         &self,
         name: &DomainName,
         qtype: QueryType,
         relative_domain: &[Label],
+        is_apex: bool,
     ) -> ZoneResult {
         if relative_domain.is_empty() {
             // Name matched entirely - this is either case 3.b (if
             // this name is delegated elsewhere) or 3.a (if not) of
             // the standard nameserver algorithm
-            zone_result_helper(name, qtype, &self.this, &self.nsdname)
+            zone_result_helper(name, qtype, &self.this, &self.nsdname, !is_apex)
         } else {
             let pos = relative_domain.len() - 1;
             if let Some(child) = self.children.get(&relative_domain[pos]) {
-                child.resolve(name, qtype, &relative_domain[0..pos])
+                child.resolve(name, qtype, &relative_domain[0..pos], false)
             } else if let Some(wildcards) = &self.wildcards {
                 // Name cannot be matched further, but there are
                 // wildcards.  This is part of case 3.c of the standard
@@ -361,7 +364,7 @@ impl ZoneRecords {
                 let mut labels = self.nsdname.labels.clone();
                 labels.insert(0, relative_domain[pos].clone());
                 let nsdname = DomainName::from_labels(labels).unwrap();
-                zone_result_helper(name, qtype, wildcards, &nsdname)
+                zone_result_helper(name, qtype, wildcards, &nsdname, true)
             } else {
                 // Name cannot be matched further, and there are no
                 // wildcards.  Check if there are NS records here: if
@@ -370,7 +373,7 @@ impl ZoneRecords {
                 // part of case 3.c.
                 match self.this.get(&RecordType::NS) {
                     Some(ns_zrs) => {
-                        if ns_zrs.is_empty() {
+                        if ns_zrs.is_empty() || is_apex {
                             ZoneResult::NameError
                         } else {
                             ZoneResult::Delegation {
@@ -592,8 +595,9 @@ fn zone_result_helper(
     qtype: QueryType,
     records: &HashMap<RecordType, Vec<ZoneRecord>>,
     nsdname: &DomainName,
+    ns_delegates: bool,
 ) -> ZoneResult {
-    if QueryType::Record(RecordType::NS) != qtype {
+    if ns_delegates && QueryType::Record(RecordType::NS) != qtype {
         if let Some(ns_zrs) = records.get(&RecordType::NS) {
             if !ns_zrs.is_empty() {
                 return ZoneResult::Delegation {
